@@ -216,6 +216,8 @@ structure SplitCfg where
   /-- `some (as, ae)`: an explicit active range / a declared or rank-wide shape;
       `none`: `getActive()` falls back to `(0, estimateShape())` of the fiber itself -/
   act : Option (Int × Int) := none
+  /-- the rank being split has format "U" (`Fiber.__iter__` = `iterActiveShape`) -/
+  fmtU : Bool := false
   deriving Repr
 
 /-- dispatch on the kind of split, on presented elements -/
@@ -227,8 +229,39 @@ def splitIter {π : Type} (op : SplitOp) (pre post as ae : Int) (rel : Bool) (el
   | .equal step => splitEqualIter step pre post as ae rel elems
   | .unequal sizes => splitUnEqualIter sizes pre post as ae rel elems
 
+/-- the same with the two iterations kept apart: the position-space boundaries come from
+    `iterActive()` (occupancy: `occ`), the partitions are filled from `Fiber.__iter__` (`elems`);
+    the two differ for a rank of format "U" -/
+def splitIterOn {π : Type} (op : SplitOp) (pre post as ae : Int) (rel : Bool) (occ elems : Fib Int π) :
+    Option (List (Part π)) :=
+  match op with
+  | .uniform step => splitUniformIter step pre post as ae rel elems
+  | .nonuniform S => splitNonUniformIter S pre post as ae rel elems
+  | .equal step => splitNonUniformIter (equalBounds step as (iterActive as ae occ)) pre post as ae rel elems
+  | .unequal sizes => splitNonUniformIter (unequalBounds sizes as (iterActive as ae occ)) pre post as ae rel elems
+
 section
 variable {ν : Type} [DecidableEq ν]
+
+/-- what an uncompressed rank delivers for an absent coordinate: the default value / an empty fiber -/
+def splitDefault (dflt : ν) : (d : Nat) → Tree Int ν d
+  | 0 => dflt
+  | _ + 1 => ([] : List (Int × Tree Int ν _))
+
+/-- `Fiber.__iter__` of a rank of format "U" (`iterActiveShape` → `iterRangeShape(as, ae)`): every
+    coordinate of the active range with its stored payload, or the default where nothing is stored -/
+def presentU (dflt : ν) (d : Nat) (as ae : Int) (f : Tree Int ν (d + 1)) : Fib Int (Tree Int ν d) :=
+  (List.range (ae - as).toNat).map (fun (i : Nat) =>
+    (as + (i : Int), (lookup (show List (Int × Tree Int ν d) from f) (as + (i : Int))).getD (splitDefault dflt d)))
+
+/-- what the splitters iterate over, by format.  (`if len(self.fiber) == 0: return` — a fiber that
+    stores nothing is not iterated at all; this only matters for format "U", which would otherwise
+    present a default for every coordinate of the range.) -/
+def presentFmt (fmtU : Bool) (dflt : ν) (d : Nat) (as ae : Int) (f : Tree Int ν (d + 1)) :
+    Fib Int (Tree Int ν d) :=
+  if fmtU then
+    (if (show List (Int × Tree Int ν d) from f).isEmpty then [] else presentU dflt d as ae f)
+  else present dflt d f
 
 /-- `Fiber.getActive()` of a fiber without explicit range / declared shape:
     `(0, maxCoord()+1)` where `maxCoord` is the last stored coordinate; `(0, 0)` when empty -/
@@ -246,7 +279,8 @@ def effActive {π : Type} (act : Option (Int × Int)) (f : Fib Int π) : Int × 
 def splitFiberParts (cfg : SplitCfg) (dflt : ν) (d : Nat) (f : Tree Int ν (d + 1)) :
     Option (List (Part (Tree Int ν d))) :=
   let a := effActive cfg.act (show List (Int × Tree Int ν d) from f)
-  splitIter cfg.op cfg.pre cfg.post a.1 a.2 cfg.rel (present dflt d f)
+  splitIterOn cfg.op cfg.pre cfg.post a.1 a.2 cfg.rel (present dflt d f)
+    (presentFmt cfg.fmtU dflt d a.1 a.2 f)
 
 /-- forget the active ranges: the result as a tree one level deeper -/
 def partsTree (d : Nat) (ps : List (Part (Tree Int ν d))) : Tree Int ν (d + 2) :=
@@ -352,6 +386,14 @@ def specIter (op : SplitOp) (pre post as ae : Int) (rel : Bool) (elems : Fib Int
   | .nonuniform S => nuSpec S pre post as ae rel elems
   | .equal step => nuSpec (equalBounds step as (iterActive as ae elems)) pre post as ae rel elems
   | .unequal sizes => nuSpec (unequalBounds sizes as (iterActive as ae elems)) pre post as ae rel elems
+
+/-- the declarative result with occupancy and iteration kept apart (format "U") -/
+def specIterOn (op : SplitOp) (pre post as ae : Int) (rel : Bool) (occ elems : Fib Int π) : List (Part π) :=
+  match op with
+  | .uniform step => uSpec step pre post as ae rel elems
+  | .nonuniform S => nuSpec S pre post as ae rel elems
+  | .equal step => nuSpec (equalBounds step as (iterActive as ae occ)) pre post as ae rel elems
+  | .unequal sizes => nuSpec (unequalBounds sizes as (iterActive as ae occ)) pre post as ae rel elems
 
 /-- partitions made of consecutive non-empty chunks of the active elements: the first starts
     at the active start, every other at its first coordinate; each ends where the next starts,
